@@ -652,6 +652,7 @@ void RobustPath::apply_repetition(Array<RobustPath *> &result) {
     Array<Vec2> offsets = {};
     repetition.get_offsets(offsets);
     repetition.clear();
+    if (offsets.count == 0) return;  // zero columns or rows: nothing to copy
 
     // Skip first offset (0, 0)
     Vec2 *offset_p = offsets.items + 1;
